@@ -11,6 +11,7 @@ import z3
 from engine import core, values as V
 from engine.core import ctx
 from engine.harness import Run, Acc, par_explore
+from engine.core import Unsupported, HarnessError
 from engine.interp import Interp
 from engine.models import SymText
 from engine.rope import Rope
@@ -542,11 +543,110 @@ if bad:
     return ob
 
 
+def ob_seq_fresh(run, interp):
+    """the number given to a new request differs from the number of every request still outstanding on that connection,
+    however many requests were issued in between (a request may stay outstanding arbitrarily long: its handler can call
+    back and the callback can issue any number of further requests).  The number source is read off the real Connection
+    object; the recurrence it implements is encoded over unbounded integers."""
+    import ast
+    import inspect
+    import itertools
+    import re
+    import textwrap
+    from rpyc.core.protocol import Connection
+    from rpyc.core import protocol, consts
+
+    def ob(o):
+        o.symbolic = ["positions i < j (Int, unbounded) of two requests issued on one connection, request i still outstanding when j is issued"]
+        conn = make_conn()
+        try:
+            src = conn._seqcounter
+            desc = repr(src)[:80]
+            i, j = z3.Int("i"), z3.Int("j")
+            if type(src) is itertools.count:
+                m = re.match(r"count\((-?\d+)(?:, (-?\d+))?\)$", repr(src))
+                if not m:
+                    raise Unsupported("number source %s: only integer counters are encoded" % desc)
+                a, st = int(m.group(1)), int(m.group(2) or 1)
+                seq = lambda k: a + st * k
+                model = "seq(k) = %d + %d*k" % (a, st)
+            elif type(src) is itertools.cycle:
+                tree = ast.parse(textwrap.dedent(inspect.getsource(Connection.__init__)))
+                rhs = [n.value for n in ast.walk(tree) if isinstance(n, ast.Assign) and any(
+                    isinstance(t, ast.Attribute) and t.attr == "_seqcounter" for t in n.targets)]
+                if len(rhs) != 1 or not isinstance(rhs[0], ast.Call) or len(rhs[0].args) != 1 or rhs[0].keywords:
+                    raise Unsupported("number source %s: cannot find what it cycles over" % desc)
+                it = eval(compile(ast.Expression(rhs[0].args[0]), "<seqcounter>", "eval"), dict(vars(protocol), self=conn))
+                if not hasattr(it, "__len__") or not 0 < len(it) <= 1 << 22:
+                    raise Unsupported("number source %s: cycles over something unsized or too large" % desc)
+                vals = list(it)
+                n = len(vals)
+                a, st = vals[0], (vals[1] - vals[0] if n > 1 else 0)
+                if not all(type(v) is int for v in vals) or vals != [a + st * k for k in range(n)]:
+                    raise Unsupported("number source %s: not an arithmetic progression" % desc)
+                seq = lambda k: a + st * (k % n)
+                model = "seq(k) = %d + %d*(k mod %d)" % (a, st, n)
+            else:
+                raise Unsupported("number source %s (%s) has no symbolic model" % (desc, type(src).__name__))
+            # the encoding is validated against the real method on its first numbers
+            drawn = [Connection._get_seq_id(conn) for _ in range(3)]
+            z = [z3.simplify(z3.IntVal(0) + seq(z3.IntVal(k))).as_long() for k in range(3)]
+            if drawn != z:
+                raise HarnessError("encoding of the number source (%s) disagrees with Connection._get_seq_id: %r vs %r" % (model, drawn, z))
+        finally:
+            retire(conn)
+        o.samples.append({"number_source": desc, "encoded_as": model, "validated_on": drawn})
+        base = [i >= 0, j > i]
+        r, _ = core.solve(base + [seq(i) != seq(j)])          # reachability witness of the query
+        if r != "sat":
+            raise HarnessError("vacuous query: %s" % r)
+        r, mdl = core.solve(base + [seq(i) == seq(j)], timeout_ms=60000)
+        o.paths = dict(total=1, checked=1)
+        if r == "unknown":
+            o.verdict = "inconclusive"
+            o.detail = "solver gave no answer on the freshness query"
+            return
+        if r == "unsat":
+            return
+        for k in range(2, 24):                                # a small witness, for a fast replay
+            r2, m2 = core.solve(base + [seq(i) == seq(j), i <= 4, j <= (1 << k)])
+            if r2 == "sat":
+                mdl = m2
+                break
+        vi, vj = mdl.eval(i, model_completion=True).as_long(), mdl.eval(j, model_completion=True).as_long()
+        if vj > 1 << 23:
+            o.verdict = "inconclusive"
+            o.detail = "numbers repeat (requests %d and %d) but the witness is too long to replay" % (vi, vj)
+            return
+        run.replay(o, "seq_fresh:reuse", "request number %d of a connection gets the number of request number %d, which may still be outstanding (%s): "
+                   "its callback is overwritten, its reply goes to the wrong request" % (vj, vi, model), REPLAY_HEAD + """
+I, J = %d, %d
+conn = Connection(VoidService(), Chan())
+for _ in range(I): conn._get_seq_id()
+got = []
+conn._async_request(consts.HANDLE_PING, (b"A",), lambda isexc, obj: got.append(("A", obj)))
+a = set(conn._request_callbacks)
+for _ in range(J - I - 1): conn._get_seq_id()
+conn._async_request(consts.HANDLE_PING, (b"B",), lambda isexc, obj: got.append(("B", obj)))
+b = set(conn._request_callbacks)
+print(sorted(a), sorted(b))
+# the peer answers B first, then A
+seqA = list(a)[0]; seqB = list(b - a)[0] if b - a else seqA
+conn._dispatch(brine.dump((consts.MSG_REPLY, seqB, (consts.LABEL_VALUE, b"reply-to-B"))))
+conn._dispatch(brine.dump((consts.MSG_REPLY, seqA, (consts.LABEL_VALUE, b"reply-to-A"))))
+conn._closed = True
+print(got)
+if got != [("B", b"reply-to-B"), ("A", b"reply-to-A")]:
+    print("REPRODUCED"); sys.exit(1)
+""" % (vi, vj))
+    return ob
+
+
 def main():
     run = Run("C08", level="other")
     interp = Interp()
     run.assumptions = ["brine / channel contracts of C04/C05 (the real brine code is executed symbolically here as well)",
-                       "itertools.count() yields strictly increasing numbers (its atomicity under threads is C13's subject)"]
+                       "itertools.count(a, s) yields a + s*k at its k-th call (the only fact assumed about the number source; O4 decides freshness from it over unbounded integers; its atomicity under threads is C13's subject)"]
     run.outside = ["multi-threaded interleavings (C12/C13)", "transport failure in the middle of a response frame (C11)"]
     run.obligation("O1_dispatch_request", "one request -> exactly one response frame with its own number, handler at most once, nothing escapes",
                    ob_dispatch_request(run, interp))
@@ -554,6 +654,8 @@ def main():
                    ob_correlation(run, interp))
     run.obligation("O3_async_request", "callback registered before sending, unregistered on failure; numbers strictly increase",
                    ob_async_request(run, interp))
+    run.obligation("O4_seq_fresh", "a new request never gets the number of a request still outstanding, however many were issued in between (unbounded)",
+                   ob_seq_fresh(run, interp))
     run.note_encoded(interp)
     sys.exit(run.finish())
 
